@@ -61,6 +61,34 @@ theorem c03_command_exact (w : World) (r : Run) (c : Nat) (l : Launch) (ts : Lis
       simp only [hloc, Res.ok.injEq] at h
       subst h; exact ⟨rfl, rfl⟩
 
+/-- The language is exact: the `%`-operator accepts a text iff it is the written form
+of a sequence of literal characters, `%%` and `%(name)s` placeholders. -/
+theorem c03_language_exact (s : Str) :
+    (parse s).isSome ↔ ∃ ts, (∀ t ∈ ts, t.WF) ∧ s = unparse ts := by
+  constructor
+  · intro h
+    cases hp : parse s with
+    | none => simp [hp] at h
+    | some ts => exact ⟨ts, (parse_sound s ts hp).2, (parse_sound s ts hp).1⟩
+  · rintro ⟨ts, hwf, rfl⟩
+    simp [parse_unparse ts hwf]
+
+/-- `c03_command_exact` without a hypothesis on the template: *whenever* a process
+is started, the configured command line is such a written form and the process
+receives the words of its substitution with invocation number `c + 1`. -/
+theorem c03_command_exact_all (w : World) (r : Run) (c : Nat) (l : Launch)
+    (h : launch w r c = .ok l) :
+    ∃ ts s, (∀ t ∈ ts, t.WF) ∧ template w.cwd r = unparse ts ∧
+      render (envAll r (c + 1)) ts = some s ∧
+      l.argv = (words (strip s)).map (expandWord w) ∧
+      l.text = expandUserLine w true (strip s) := by
+  cases hp : parse (template w.cwd r) with
+  | none => simp [launch, nextText, direct, fmt, hp] at h
+  | some ts =>
+    obtain ⟨ht, hwf⟩ := parse_sound _ ts hp
+    obtain ⟨s, h1, h2, h3⟩ := c03_command_exact w r c l ts hwf ht h
+    exact ⟨ts, s, hwf, ht, h1, h2, h3⟩
+
 /-- any other use of `%` is a format error: no process is started -/
 theorem c03_malformed_rejected (w : World) (r : Run) (c : Nat)
     (h : parse (template w.cwd r) = none) : launch w r c = .uiError := by
